@@ -26,6 +26,8 @@ type params struct {
 	GateCall int    `json:"gate_call,omitempty"` // which backend call of R is gated (1-based)
 	Flushes  int    `json:"flushes,omitempty"`
 	Chained  bool   `json:"chained,omitempty"` // second flush names the first flush
+	Tag      uint16 `json:"tag,omitempty"`     // tag of the flushed request (default 10); 0xffff = NOTAG used as an ordinary tag
+	Then     string `json:"then,omitempty"`    // "idle" | "own": a further flush that must be answered while R is still held
 	Other    bool   `json:"other_traffic,omitempty"`
 }
 
@@ -110,6 +112,12 @@ func outcomeOf(frames []oracle.Frame) string {
 // arrive; a separate thread releases the gate at any time.
 func gated(p params) *fw.Scenario {
 	name := fmt.Sprintf("gated-%s-call%d-flushes%d", p.Request, p.GateCall, p.Flushes)
+	if p.Tag != 0 {
+		name += fmt.Sprintf("-tag%d", p.Tag)
+	}
+	if p.Then != "" {
+		name += "-then-" + p.Then
+	}
 	if p.Chained {
 		name += "-chained"
 	}
@@ -121,9 +129,12 @@ func gated(p params) *fw.Scenario {
 		var fs *memfs.FS
 		var sent []refcodec.Msg
 		gate := &memfs.Gate{}
-		const rTag = 10
+		rTag := uint16(10)
+		if p.Tag != 0 {
+			rTag = p.Tag
+		}
 		var rMethods map[string]bool
-		base, gateThread := 0, -1
+		base, gateThread, otherHandle, setupFrames := 0, -1, -2, 0
 		body := func() {
 			fs = mkfs()
 			s = sess.Connect(fs, sess.NewServer(fs), "c")
@@ -151,13 +162,15 @@ func gated(p params) *fw.Scenario {
 				R = rawpeer.Trenameat(rTag, 2, "x", 3, "y")
 				rMethods = map[string]bool{"RenameAt": true, "Renamed": true}
 			}
+			otherHandle = -2
 			if p.Other {
 				s.Walk(1, 7, "e")
+				otherHandle = len(fs.Handles) - 1 // the unrelated request's File: its calls are not R's
 			}
 			seen := 0
 			base = len(fs.Calls)
 			fs.Hook = func(c *memfs.Call) *memfs.Action {
-				if c.Seq < base || !rMethods[c.Method] {
+				if c.Seq < base || !rMethods[c.Method] || c.Handle == otherHandle {
 					return nil
 				}
 				seen++
@@ -167,7 +180,39 @@ func gated(p params) *fw.Scenario {
 				}
 				return nil
 			}
+			setupFrames = len(s.Peer.Received)
 			vsched.BeginExplore()
+			if p.Then != "" {
+				// The gate is opened by the peer only after the further flush
+				// (idle / own tag) has been answered: it must be answered "at
+				// once", i.e. while R is still held (deadlock otherwise).
+				thenMsg := rawpeer.Tflush(14, 999)
+				if p.Then == "own" {
+					thenMsg = rawpeer.Tflush(14, 14)
+				}
+				msgs := []refcodec.Msg{R}
+				for i := 0; i < p.Flushes; i++ {
+					msgs = append(msgs, rawpeer.Tflush(uint16(20+i), rTag))
+				}
+				msgs = append(msgs, thenMsg)
+				sent = msgs
+				s.Peer.SendAll(msgs...)
+				for {
+					r, err := s.Peer.Recv()
+					if err != nil || r.Tag == 14 {
+						break
+					}
+				}
+				gate.Open()
+				for i := 0; i < len(msgs)-1; i++ {
+					if _, err := s.Peer.Recv(); err != nil {
+						break
+					}
+				}
+				vsched.EndExplore()
+				s.Hangup()
+				return
+			}
 			// releaser
 			vsched.GoNamed("releaser", func() { gate.Open() })
 			msgs := []refcodec.Msg{R, rawpeer.Tflush(11, rTag)}
@@ -197,13 +242,9 @@ func gated(p params) *fw.Scenario {
 			for _, pr := range probs {
 				is = append(is, fw.Issue{Fingerprint: "stream|" + pr, Summary: pr})
 			}
-			setup := 0
-			for i, f := range frames {
-				if f.Msg.Tag == rTag || f.Msg.Tag >= 11 && f.Msg.Tag <= 13 {
-					setup = i
-					break
-				}
-				setup = i + 1
+			setup := setupFrames
+			if setup > len(frames) {
+				setup = len(frames)
 			}
 			win := frames[setup:]
 			if e.End == vsched.EndComplete {
@@ -221,7 +262,7 @@ func gated(p params) *fw.Scenario {
 			}
 			var rcalls []*memfs.Call
 			for _, c := range fs.Calls {
-				if c.Seq < base || !rMethods[c.Method] || c.Thread != gateThread {
+				if c.Seq < base || !rMethods[c.Method] || c.Thread != gateThread || c.Handle == otherHandle {
 					continue
 				}
 				if rReply != nil && !vsched.HB(&c.Enter, &rReply.First) {
@@ -288,6 +329,15 @@ func run(ctx *fw.Ctx, rep *fw.Report) {
 		r     string
 		calls int
 	}{{"read", 1}, {"write", 1}, {"walk2", 2}, {"renameat", 2}}
+	// NOTAG used as an ordinary tag by the flushed request
+	scs = append(scs, gated(params{Request: "read", GateCall: 1, Flushes: 1, Tag: 0xffff}), gated(params{Request: "walk2", GateCall: 2, Flushes: 1, Tag: 0xffff}))
+	// flushes of an idle / the own tag while another request is held and being flushed
+	for _, then := range []string{"idle", "own"} {
+		scs = append(scs, gated(params{Request: "read", GateCall: 1, Flushes: 1, Then: then}))
+		if !ctx.Quick() {
+			scs = append(scs, gated(params{Request: "read", GateCall: 1, Flushes: 2, Then: then}), gated(params{Request: "walk2", GateCall: 2, Flushes: 1, Then: then}))
+		}
+	}
 	for _, r := range reqs {
 		for g := 1; g <= r.calls; g++ {
 			scs = append(scs, gated(params{Request: r.r, GateCall: g, Flushes: 1}))
